@@ -55,6 +55,20 @@ pub fn run() {
     }
     line("row_multi", J::A(multi));
 
+    // Halving whole rows of 1..40 bytes (word-sized and unaligned lengths), three byte patterns each
+    let mut half_multi = Vec::new();
+    for len in 1..=40usize {
+        for pat in 0..3u8 {
+            let bytes: Vec<u8> = (0..len).map(|i| match pat {
+                0 => (i as u8).wrapping_mul(37).wrapping_add(0x5f),
+                1 => 0xff,
+                _ => (i as u8).wrapping_mul(101).wrapping_add(len as u8).wrapping_mul(13) | 0x10,
+            }).collect();
+            half_multi.push(J::A(vec![J::u8s(&bytes), J::u8s(&verif_row::half_counters(&bytes))]));
+        }
+    }
+    line("row_half_multi", J::A(half_multi));
+
     // next_power_2
     let inputs = next_power_2_inputs();
     line("next_power_2", J::A(inputs.iter().map(|c| J::A(vec![J::I(*c as i128), J::I(verif_row::next_power_2(*c) as i128)])).collect()));
